@@ -14,6 +14,8 @@ CHECKS["C04"] = ("exploration", "5.C04", "refinement against a reference model p
   "Seeded search over sorted-set histories with colliding scores; replies compared numerically with the model; after every command the real skip list is walked by verif_check_invariants (order, level subsequences, index/length agreement, no NaN) and its level-0 chain compared with the model. Sampled, not enumerated.")
 CHECKS["C05"] = ("exploration", "5.C05", "seeded delivery schedules (segmentation, interleaving, small socket buffers, slow readers) over a simulated transport, reply stream decoded by an independent RESP reader and matched 1:1 against requests",
   "Seeded search over pipelines x segmentations x connection interleavings x reply-side flow control; oracle: exactly one well-formed reply per request in order, of the expected kind, with promptness checked at sync points where the client stops sending and waits. Segmentations are sampled (with forced alignment to the 8192-byte read size).")
+CHECKS["C06"] = ("exploration", "5.C06", "hostile-input simulation: systematic boundary walk over the command table extracted from the source plus byte-level hostile frames, with panic/exit/deadlock/hang detection by the scheduler and an allocator seam",
+  "Every server thread runs under the simulator, so a panic, exit(), deadlock (all threads futex-blocked) or hang (watchdog) is observed deterministically; the allocator seam records the largest single request and refuses absurd ones; a fresh connection must then be served and sentinel data be intact. The boundary walk is systematic over a stated finite catalogue (command x position x 50 values) spread over run indices; the rest is sampled.")
 NOT_APPLICABLE = []
 def main():
     checks = []
